@@ -150,6 +150,19 @@ def check_scatter(rep, rule, f, effs, attr, count, key, off, sizeterm=None, size
     try:
         sc = extract_scatter(effs, target)
     except Unknown as u:
+        # one of several assignments takes the groups of ANOTHER key over (lecturer_lists = copy of project_lists): right only
+        # where every project is its own lecturer, which a test on the agent counts does not establish
+        other = {'project_lists': 'project_index', 'lecturer_lists': 'lecturer_index'}
+        for e_, ctx_ in iter_effects(effs):
+            if e_.kind == 'store' and e_.target == target:
+                src = [x for x in walk(e_.value) if x[0] == 'attr' and x[1] == lp.MODEL and x[2] in other and x[2] != attr]
+                conds = [c_.cond for c_, _ in ctx_ if c_.kind == 'if']
+                only_counts = conds and all(not contains(c_, lambda y: y[0] == 'attr' and not (y[2].startswith('num_') or y == lp.MODEL or y[1] != lp.MODEL)) for c_ in conds)
+                if src and only_counts and other[src[0][2]] != key:
+                    rep.fail(rule, f.where, '%s groups the pairs by their own %s on every path' % (attr, key),
+                             got='when %s the groups are taken over from %s (keyed by %s)' % (' and '.join(show(c_)[:60] for c_ in conds), src[0][2], other[src[0][2]]),
+                             want='scatter by pair.%s' % key, construct='%s copied from %s under a test on the agent counts' % (attr, src[0][2]), loc=e_.loc)
+                    return
         rep.inconclusive(rule, f.where, '%s is built by a recognised group-by' % attr, got=str(u))
         return
     for kind, msg, e in sc.problems:
